@@ -108,6 +108,10 @@ impl<const M: usize> Sim<M> {
         if align <= M && round_up(size, M) <= cap_before && size <= isize::MAX as usize {
             let p = if self.limit.is_some() { "C07" } else { "C09" };
             rep.violate(p, format!("{}/fitting-request-failed/{}", p, what), format!("size {} align {} capacity-before {} limit {:?} ({})", size, align, cap_before, self.limit, self.cur));
+        } else if align > M && align <= (1 << 20) && size <= (1 << 30) && round_up(size, align) + align - 1 <= cap_before {
+            // over-aligned request: wherever the finger stands, the rounded size plus the worst-case padding fits
+            let p = if self.limit.is_some() { "C07" } else { "C09" };
+            rep.violate(p, format!("{}/fitting-request-failed/{}/over-aligned", p, what), format!("size {} align {} capacity-before {} limit {:?} ({})", size, align, cap_before, self.limit, self.cur));
         }
         rep.bump("ops.alloc_failed");
         if let Some(before) = self.last_obs.take() {
